@@ -109,6 +109,21 @@ func runParseCase(in *pIn) (lit string, outcome string) {
 			r = "PIPanic"
 		}
 		return fmt.Sprintf("PCRange %s %s %s", opCoq(in.Op), in.V.Coq(), r), strings.Fields(strings.Trim(r, "()"))[0]
+	case "rangenf": // the range container's operand decoding as a holder with EnableFloat2Int = false calls it
+		r := "PIPanic"
+		pk := safeCall(func() {
+			rg, err := rangeholder.ParseRange(be.ValueOpt(in.Op), v, false)
+			if err != nil {
+				r = "PIErr"
+				return
+			}
+			l, rr := rangeBounds(rg)
+			r = fmt.Sprintf("(PIOk (%s, %s))", zl(l), zl(rr))
+		})
+		if pk {
+			r = "PIPanic"
+		}
+		return fmt.Sprintf("PCRangeNF %s %s %s", opCoq(in.Op), in.V.Coq(), r), strings.Fields(strings.Trim(r, "()"))[0]
 	case "nil":
 		var b bool
 		pk := safeCall(func() { b = util.NilInterface(v) })
